@@ -92,14 +92,14 @@ fn main() {
                     let j: serde_json::Value = serde_json::from_str(l).unwrap();
                     let (s, c) = (j["gen"]["seed"].as_u64().unwrap_or(seed), j["gen"]["case"].as_u64().unwrap_or(0));
                     let th = j["gen"]["thorough"].as_bool().unwrap_or(false);
-                    let mut line = watched(if th { 1800 } else { 300 }, cmd, s, c, th, move || { let mut rng = Rng::new(s.wrapping_mul(1_000_003).wrapping_add(c) ^ salt); cvh::ops::install_panic_hook(); genf(&mut rng, th) });
+                    let mut line = watched(if th { 1800 } else { 150 }, cmd, s, c, th, move || { let mut rng = Rng::new(s.wrapping_mul(1_000_003).wrapping_add(c) ^ salt); cvh::ops::install_panic_hook(); genf(&mut rng, th) });
                     line["case"] = json!(c); line["gen"] = json!({"seed": s, "case": c, "thorough": th});
                     let mut o = out.lock(); writeln!(o, "{}", line).unwrap();
                 }
                 return;
             }
             for case in start..cases {
-                let mut line = watched(if thorough { 1800 } else { 300 }, cmd, seed, case, thorough, move || { let mut rng = Rng::new(seed.wrapping_mul(1_000_003).wrapping_add(case) ^ salt); genf(&mut rng, thorough) });
+                let mut line = watched(if thorough { 1800 } else { 150 }, cmd, seed, case, thorough, move || { let mut rng = Rng::new(seed.wrapping_mul(1_000_003).wrapping_add(case) ^ salt); genf(&mut rng, thorough) });
                 line["case"] = json!(case); line["gen"] = json!({"seed": seed, "case": case, "thorough": thorough});
                 let mut o = out.lock(); writeln!(o, "{}", line).unwrap();
             }
@@ -124,6 +124,7 @@ fn main() {
                 let mut o = out.lock(); writeln!(o, "{}", line).unwrap();
             }
         }
+        "signal-child" => { println!("{}", cvh::run::signal_child()); }
         "twin-child" => {
             let a: Vec<u64> = args[2..8].iter().map(|x| x.parse().unwrap()).collect();
             // the environment is not an input of a run: restrict this process to ONE of its CPUs when asked to
@@ -136,7 +137,7 @@ fn main() {
                     }
                 }
             }
-            println!("{}", cvh::dir::twin_trace(a[0] as usize, a[1] as usize, a[2] as usize, a[3], a[4] as usize, a[5] == 1));
+            println!("{}", cvh::dir::twin_trace_g(a[0] as usize, a[1] as usize, a[2] as usize, a[3], a[4] as usize, a[5]));
         }
         "run" | "proc" => {
             // replay: lines carry their generator coordinates
